@@ -13,7 +13,7 @@ txt = t.format(WT=wt, ID=pid, TITLE=p['title'], STATEMENT=p['statement'], QUANT=
 done = []
 for m in sorted(glob.glob(f'/verif/seeded/{pid}-*/meta.json')):
     j = json.load(open(m)); done.append("  - " + " ".join(j.get('summary', '').split())[:260])
-extra = ("\nSECOND ROUND. Earlier rounds already seeded the following changes for this property; do NOT repeat them nor close variants "
+extra = ("\nFURTHER ROUND. Earlier rounds already seeded the following changes for this property; do NOT repeat them nor close variants "
          "(choose other functions / overloads / files of the anchored code and other KINDS of trigger):\n" + "\n".join(done) +
          "\nPrefer this time: changes that need a MULTI-STEP history or a particular prior state to manifest; two cooperating sites that each "
          "look fine alone; a boundary reached only with an unusual configuration (capacity, width, type pair, iterator category, comparator, "
